@@ -46,6 +46,7 @@ type IterState struct {
 	Map     Value  // the map value being ranged over
 	Visited string // name of the state component holding the visited set
 	KeySort string
+	Opaque  bool // range over a map that is not modelled (struct / interface keys): arbitrary pairs, arbitrary count
 }
 
 type LocKind int
